@@ -18,6 +18,10 @@ def gen_graph(rng: random.Random, idx: int) -> dict:
         is_job = rng.random() < 0.15
         toks.append({"id": i, "avail": int(rng.random() < (0.45 if i else 0.9)), "deps": deps, "job": is_job,
                      "recovering": is_job and rng.random() < 0.5})
+    for t in toks:                            # file tokens with 0..3 primary copies, each present or lost (available = some copy exists)
+        if not t["job"] and rng.random() < 0.3:
+            t["copies"] = [int(rng.random() < 0.5) for _ in range(rng.choice([0, 1, 2, 2, 3]))]
+            t["avail"] = int(rng.random() < 0.9)
     if rng.random() < 0.1 and n > 1:          # a lost token without previous tokens: build_graph must raise
         toks[0]["avail"] = 0
     k = rng.choice([1, 1, 2, 3])
@@ -28,7 +32,8 @@ def gen_graph(rng: random.Random, idx: int) -> dict:
 def spec(case: dict):
     """the property's own oracle: least set containing the inputs and closed under `not stop => dependees`"""
     byid = {t["id"]: t for t in case["tokens"]}
-    stop = {i: bool(t["avail"]) or bool(t.get("job") and t.get("recovering")) for i, t in byid.items()}
+    stop = {i: (bool(t["avail"]) and ("copies" not in t or any(t["copies"]))) or bool(t.get("job") and t.get("recovering"))
+            for i, t in byid.items()}
     # the real code tests `is_recovering` first, then availability; both stop the search
     nodes, edges, todo = set(case["inputs"]), set(), list(case["inputs"])
     while todo:
@@ -48,14 +53,33 @@ def spec(case: dict):
 def _recov_cases(rng: random.Random, quick: bool) -> list[dict]:
     cases = []
     # soft failures: only the failing job runs again
-    for n, stage, phase, cnt in [(3, 1, "execute", 1), (4, 2, "transfer", 2), (2, 0, "schedule", 1), (5, 4, "execute", 2)]:
+    for n, stage, phase, cnt in ([(3, 1, "execute", 1), (4, 2, "transfer", 2), (2, 0, "schedule", 1)] if quick else
+                                 [(3, 1, "execute", 1), (4, 2, "transfer", 2), (2, 0, "schedule", 1), (5, 4, "execute", 2)]):
         cases.append({"name": f"soft-pipeline{n}-s{stage}-{phase}x{cnt}", "shape": {"kind": "pipeline", "n": n},
                       "plan": [{"step": f"/s{stage}", "tag": "0", "phase": phase, "kind": "soft", "count": cnt}], "max_retries": 6})
     # fail-stop: the lost producers (and only they) run again
-    for n, stage, lose in [(3, 2, [2]), (3, 2, [2, 1]), (4, 3, [3, 2, 1, 0]), (4, 2, [2, 0])]:
+    for n, stage, lose in ([(3, 2, [2, 1]), (4, 3, [3, 2, 1, 0])] if quick else [(3, 2, [2]), (3, 2, [2, 1]), (4, 3, [3, 2, 1, 0]), (4, 2, [2, 0])]):
         cases.append({"name": f"failstop-pipeline{n}-s{stage}-lose{lose}", "shape": {"kind": "pipeline", "n": n},
                       "plan": [{"step": f"/s{stage}", "tag": "0", "phase": "execute", "kind": "failstop", "count": 1,
                                 "lose": [[f"/s{j}", "0"] for j in lose]}], "max_retries": 6})
+    # replicated output: the producer's output has a second primary copy on another deployment; ONE copy is lost with the failure, so the
+    # data is still available and the producer must not run again (FileToken.is_available: some copy exists)
+    cases.append({"name": "failstop-pipeline3-s2-lose-s1-replica-survives", "shape": {"kind": "pipeline", "n": 3, "deps": 2},
+                  "plan": [{"step": "/s2", "tag": "0", "phase": "execute", "kind": "failstop", "count": 1,
+                            "lose": [["/s1", "0"]], "replicate": [["/s1", "0"]]}], "max_retries": 6,
+                  "expect_attempts": {"/s0/0": 1, "/s1/0": 1, "/s2/0": 2}})
+    if not quick:
+        cases.append({"name": "failstop-pipeline4-s3-lose-s2-s1-replica-of-s2-survives", "shape": {"kind": "pipeline", "n": 4, "deps": 2},
+                      "plan": [{"step": "/s3", "tag": "0", "phase": "execute", "kind": "failstop", "count": 1,
+                                "lose": [["/s2", "0"], ["/s1", "0"]], "replicate": [["/s2", "0"]]}], "max_retries": 6,
+                      "expect_attempts": {"/s0/0": 1, "/s1/0": 1, "/s2/0": 1, "/s3/0": 2}})
+    # forced interleaving (see props/c19.py gated_cases): the second consumer fails while the re-execution of the shared producer is RUNNING;
+    # its recovery must use that re-execution: the producer's data was lost ONCE, it runs twice, not three times
+    from sfv.props.c19 import gated_cases
+    for g in gated_cases(quick)[:1 if quick else None]:
+        cases.append(dict(g, name="c18-" + g["name"], trace_fm=True,
+                          expect_why=("reexecuted-although-its-re-execution-was-under-way",
+                                      "its output was lost once and the second consumer failed while its re-execution was under way")))
     m = rng.choice([3, 4, 6])
     el = rng.randrange(m)
     cases.append({"name": f"soft-scatter{m}-b{el}", "shape": {"kind": "scatter", "m": m},
@@ -82,6 +106,14 @@ def judge_run(case: dict, r: dict) -> list[tuple[str, str]]:
     if r["outcome"] != "ok":
         fails.append((f"run:{r['outcome']}", f"{case['name']}: {r.get('msg', '')[:300]}"))
         return fails
+    for job, n in (case.get("expect_attempts") or {}).items():
+        if r["attempts"].get(job, 0) > n:
+            key, why = case.get("expect_why") or ("reexecuted-although-a-copy-of-its-output-survived",
+                                                  "one copy of its output was deleted, a second primary copy was still present")
+            fails.append((key, f"{case['name']}: job {job} was executed {r['attempts'].get(job, 0)} times, expected {n}: {why} "
+                               f"(timeline {[e for e in r.get('timeline', []) if e[0] in ('replica', 'lose', 'start', 'claim', 'signal', 'gate-timeout')]})"))
+        elif r["attempts"].get(job, 0) < n:
+            fails.append(("fewer-executions-than-expected", f"{case['name']}: job {job} executed {r['attempts'].get(job, 0)} times, expected {n}"))
     injected_exec = {}
     for name, phase, kind in r["injected"]:
         if phase == "execute":
@@ -111,14 +143,17 @@ class C18(Property):
     drivers = ["Drivers/C18.lean"]
     translators = []
     rule = ("(1) the REAL ProvenanceGraph.build_graph on random provenance relations (1..25 tokens, 0..3 dependees each, random availability, "
+            "file tokens with 0..3 primary data locations in the real DataManager of which a random subset was deleted, "
             "job tokens of recovering jobs, 1..3 input tokens, occasionally a lost token without dependees) stored in a real in-memory "
             "StreamFlow database; node set, edge set and the raising case are compared with the Lean model and with the closure "
             "specification computed independently; (2) real recovery runs (pipelines, scatter, diamond; soft and fail-stop failures with OUR "
-            "injector that deletes exactly the named jobs' directories): the execution count of every job is compared with the count predicted "
+            "injector that deletes exactly the named jobs' directories; one shape holds a second primary copy of a job's output on another "
+            "deployment and loses only the first): the execution count of every job is compared with the count predicted "
             "from the injected failures and the deleted directories.")
     trusted_base = [
         "recovery harness harness/sfv/rt/recov.py (own failure injectors subclassing the repo's test injectors) and harness/sfv/rt/provk.py",
-        "token availability is modelled as a flag; FileToken.is_available (data manager + file system) is exercised by the real runs only",
+        "token availability is a flag in the Lean model; FileToken.is_available runs for real in the build_graph comparison (copies on several local "
+        "deployments, availability specified as `recoverable and some copy exists`) and in the end-to-end runs",
         "GraphMapper / get_step_ids (token graph -> steps to re-run) is not modelled: checked end to end through execution counts",
     ]
     assumptions = ["the provenance relation stored in the database is what the engine recorded (C07)"]
@@ -133,18 +168,23 @@ class C18(Property):
     def explore(self, ctx: Ctx) -> None:
         rng = ctx.rng
         quick = ctx.tier == "quick"
-        n = 120 if quick else 1200
+        n = 80 if quick else 1200
         if ctx.mode == "search":
             n *= 3
         corpus = [
             {"idx": -1, "tokens": [{"id": 0, "avail": 1, "deps": []}, {"id": 1, "avail": 1, "deps": [0]}, {"id": 2, "avail": 0, "deps": [1]},
                                    {"id": 3, "avail": 1, "deps": [0]}, {"id": 4, "avail": 0, "deps": [2, 3]}], "inputs": [4], "ports": 2},
             {"idx": -2, "tokens": [{"id": 0, "avail": 0, "deps": []}, {"id": 1, "avail": 0, "deps": [0]}], "inputs": [1], "ports": 1},
+            # a job's output replicated on a second location; ONE copy lost: the data is still available, the producer must not be selected
+            {"idx": -4, "tokens": [{"id": 0, "avail": 1, "deps": []}, {"id": 1, "avail": 1, "deps": [0], "copies": [0, 1]},
+                                   {"id": 2, "avail": 1, "deps": [0], "copies": [1, 0, 1]}, {"id": 3, "avail": 0, "deps": [1, 2]}], "inputs": [3], "ports": 2},
+            {"idx": -5, "tokens": [{"id": 0, "avail": 1, "deps": []}, {"id": 1, "avail": 1, "deps": [0], "copies": [0, 0]},
+                                   {"id": 2, "avail": 1, "deps": [1], "copies": [1, 1]}, {"id": 3, "avail": 0, "deps": [1, 2]}], "inputs": [3], "ports": 2},
             {"idx": -3, "tokens": [{"id": i, "avail": 1, "deps": ([i - 1] if i else [])} for i in range(12)], "inputs": [11, 10], "ports": 3},
         ]
         graphs = corpus + [gen_graph(rng, k) for k in range(n)]
         lines, meta = [], []
-        for status_case in pmap(provk.run_case, graphs, timeout=900, workers=6):
+        for status_case in pmap(provk.run_case, graphs, timeout=300, workers=8):
             case, status, real = status_case
             if status != "ok":
                 ctx.fail("build_graph:" + status, f"graph {case['idx']}: {str(real)[:300]}", {"graph": case})
@@ -189,7 +229,7 @@ class C18(Property):
                 ctx.disagree("build_graph vs model", f"graph {case['idx']}: real `{exp}`, model `{g}`", {"graph": case})
         # ---- end to end -------------------------------------------------------------------------
         rcases = _recov_cases(rng, quick)
-        for case, status, r in pmap(recov.run_case, rcases, timeout=900, workers=6):
+        for case, status, r in recov.run_cases(rcases, timeout=300, workers=6):
             if status != "ok":
                 ctx.fail("run:" + status, f"{case['name']}: {str(r)[:300]}", {"recovery": case})
                 continue
